@@ -6,7 +6,7 @@
 //!   C04  ord.u / ord.i                          partial_cmp, <, <=, >, >=, != (operators, not method calls)
 //!        sort.u / sort.i                        slice::sort / sort_unstable / BTreeSet order / Iterator::max,min
 //!        hash.u / hash.i                        the byte stream `Hash::hash` feeds to a recording Hasher
-//!        histx.u / histx.i                      histories with the constructors from_str_radix, parse_bytes,
+//!        histx.u / histx.i / histx.pair         histories with the constructors from_str_radix, parse_bytes,
 //!                                               From<primitive>, arbitrary::Arbitrary and BigInt `op= scalar`
 //!        arb.u / arb.i / arb.u_rest / arb.i_rest / arb.hint     arbitrary::Arbitrary (feature `arbitrary`)
 //!        qc.u / qc.i / qc.shrink_u / qc.shrink_i                quickcheck::Arbitrary (feature `quickcheck`)
@@ -389,6 +389,23 @@ pub fn dispatch(op: &str, a: &[&str]) -> Option<String> {
         "histx.i" => {
             let (obs, _) = H::hist(|| xctor_i(a[0]), xapply_i, res_i, a[1]);
             format!("ok {}", obs.join(" "))
+        }
+        // two extended histories, then everything hist.pair observes (==, cmp, DefaultHasher, exports, max/min)
+        "histx.pair" if a[0] == "u" => {
+            let (_, x) = H::hist(|| xctor_u(a[1]), xapply_u, res_u, a[2]);
+            let (_, y) = H::hist(|| xctor_u(a[3]), xapply_u, res_u, a[4]);
+            match (x, y) {
+                (Some(x), Some(y)) => H::observe_u(&x, &y),
+                _ => "panic".to_string(),
+            }
+        }
+        "histx.pair" => {
+            let (_, x) = H::hist(|| xctor_i(a[1]), xapply_i, res_i, a[2]);
+            let (_, y) = H::hist(|| xctor_i(a[3]), xapply_i, res_i, a[4]);
+            match (x, y) {
+                (Some(x), Some(y)) => H::observe_i(&x, &y),
+                _ => "panic".to_string(),
+            }
         }
         #[cfg(feature = "arbitrary")]
         "arb.u" => {
